@@ -18,7 +18,12 @@ Inners == {"while", "dowhile", "for", "forin", "forof", "switch", "block", "none
 Exits  == {"none", "break", "continue", "break_outer", "continue_outer", "return", "throw", "throw_midexpr", "return_midexpr"}
 Encls  == {"none", "try_catch", "try_finally", "try_catch_finally", "in_catch", "in_finally", "finally_after_throw",
            "catch_rethrow_finally", "switch", "forin", "forof", "if"}
-Places == {"inline", "func_stmt", "func_operand", "func_arg", "func_array", "callback", "getter", "ctor"}
+Places == {"inline", "func_stmt", "func_operand", "func_arg", "func_array", "callback", "getter", "ctor",
+           \* the exception leaves the script function that a native (or a call) is running and is caught outside it
+           "cb_catch_outside", "getter_catch_outside", "valueof_catch_outside", "call_catch_outside", "sort_catch_outside",
+           "func_catch_outside", "ctor_catch_outside"}
+CatchOutside(p) == p \in {"cb_catch_outside", "getter_catch_outside", "valueof_catch_outside", "call_catch_outside",
+                          "sort_catch_outside", "func_catch_outside", "ctor_catch_outside"}
 
 IsLoop(i) == i \in {"while", "dowhile", "for", "forin", "forof"}
 Valid(b) ==
@@ -26,9 +31,11 @@ Valid(b) ==
   /\ (b.exit = "break" => b.inner # "none")                       \* needs something to break out of
   /\ (b.exit = "continue" => TRUE)                                 \* targets the innermost loop (INNER or outer)
   /\ (b.inner = "none" => b.exit \notin {"break"})
+  /\ (CatchOutside(b.place) => b.exit \in {"throw", "throw_midexpr"} /\ b.encl \in {"none", "try_finally", "forin", "switch", "in_catch", "finally_after_throw"})
 \* quick tier: every inner, exit, enclosure and place occurs, but not the full product
 QuickPick(b) ==
   \/ b.encl = "none" /\ b.place \in {"inline", "func_operand"}
+  \/ CatchOutside(b.place) /\ b.inner \in {"forin", "while", "none"}
   \/ b.place = "inline" /\ b.inner \in {"forin", "switch", "while"}
   \/ b.inner = "forin" /\ b.exit \in {"break", "return", "throw_midexpr"} 
   \/ b.inner = "for" /\ b.encl \in {"try_finally", "in_catch"} /\ b.place \in {"func_arg", "callback"}
